@@ -80,6 +80,15 @@ def distinct_scalars(rng, n, edge_p=0.1, avoid=()):
     return out
 
 
+def pick_coords(rng, n, k=3, full=False):
+    """coordinates of an N-tuple to perturb: all of them for short tuples (or when `full`), otherwise the first, the last,
+    the ones next to a multiple of 16 (chunk boundaries) and k random ones"""
+    if n <= 5 or full:
+        return list(range(n))
+    s = {0, n - 1} | {j for j in (15, 16, 31, 32) if j < n} | set(rng.sample(range(n), min(k, n)))
+    return sorted(s)
+
+
 def rand_nz(rng):
     return rng.randrange(1, Q)
 
@@ -225,6 +234,13 @@ class Panic(Exception):
     pass
 
 
+class HarnessOpError(RuntimeError):
+    """an op of the adaptor returned an error (typically: the implementation refused to decode an input). The driver only
+    sends such ops inputs that the model accepts (deliberately invalid inputs go through ops that report the refusal as a
+    result), so on the unchanged tree this never happens; on a changed tree it is a disagreement between implementation
+    and model, i.e. a correspondence failure - not an error of the machinery."""
+
+
 class Harness:
     def __init__(self, binary, limit_as=None):
         self.binary = binary
@@ -281,7 +297,16 @@ class Harness:
             return toks
         if st == "panic":
             raise Panic("%s: %s" % (op, toks[0]))
-        raise RuntimeError("harness error on %s: %s" % (op, toks[0]))
+        raise HarnessOpError("harness error on %s: %s" % (op, toks[0]))
+
+    def try_call(self, op, *args):
+        """like call, but an error answer of the op is returned as None (for monitors that must survive it)"""
+        st, toks = self.raw(op, *args)
+        if st == "ok":
+            return toks
+        if st == "panic":
+            raise Panic("%s: %s" % (op, toks[0]))
+        return None
 
     def rng(self, seed, tape=()):
         self.call("rng", seed, scs(tape) if tape else "-")
